@@ -132,6 +132,11 @@ def scenarios(rng, quick):
     for (a, d) in [(0.5, 3.0), (0.5, 200.0), (4.5, 30.0), (4.5, 100.0), (12.0, 50.0), (12.0, 400.0), (30.0, 130.0)]:
         out.append((f"blackout@{a}+{d}", [(a, "net", "blackout"), (a + d, "net", "ok")], {}, a + d + 250))
     out.append(("lossy", [(10.0, "net", "lossy"), (200.0, "net", "ok")], {}, 450))
+    # the spa's ADDRESS is configured as well (the property's wording): undisturbed, after a blackout, and after a
+    # blackout followed by a phase in which the first datagram of every newly opened endpoint is lost
+    out.append(("addr:happy", [], {}, 30.0))
+    out.append(("addr:blackout", [(12.0, "net", "blackout"), (200.0, "net", "ok")], {}, 450))
+    out.append(("addr:blackout-then-first-datagram-lost", [(12.0, "net", "blackout"), (200.0, "net", "firstlost"), (420.0, "net", "ok")], {}, 700))
     # the spa changes a live value and its report is lost: the facade mirrors the spa again after the periodic refresh
     out.append(("unreported-change", [(20.0, "change", 7), (25.0, "change", 40)], {}, 320))
     # a connection that never had a ping answered (pings are lost from the start, everything else gets through),
@@ -211,14 +216,15 @@ def run_scenarios(rng, quick, which=None):
         sc, mode, prev_arg = [], "ok", "ok"
         for (t, a, arg) in sorted(script, key=lambda x: x[0]):
             if a == "net":
-                m = "bad" if arg in ("blackout", "lossy", "rferr", "noping") else "ok"
-                if m == mode and not (arg == "rferr") and not (prev_arg == "noping" and arg != "noping"):
+                m = "bad" if arg in ("blackout", "lossy", "rferr", "noping", "firstlost") else "ok"
+                if m == mode and not (arg == "rferr") and not (prev_arg in ("noping", "firstlost", "blackout") and arg != prev_arg):
                     continue
                 mode, prev_arg = m, arg
             sc.append((t, a, arg))
         snap = env.REPO + "/tests/snapshots/inXM-Pump 1 running-2020-12-08 19_54_01.snapshot" if name.startswith("active:") else None
+        from ..simnet import SIM_ADDR
         r = LifecycleRun(rng, sc, susp=susp, rank=rng.choice(["stable", "perm", "reverse"]), horizon=horizon, snapshot=snap,
-                         has_id=not name.startswith("noid:"))
+                         has_id=not name.startswith("noid:"), spa_address=(SIM_ADDR[0] if name.startswith("addr:") else None))
         r.name = name
         if name.startswith("mix") or name.startswith("setinfo") or name.startswith("reset@"):
             # wake-up jitter: every loop wake-up up to 30 ms late (the lifecycle model is untimed)
